@@ -438,3 +438,91 @@ theorem newWin_ok {st : St} (inv : SInv st) {p : Nat} {pw : Win} (hp : LiveW st.
     exact inv.term_dead hf (by rcases h with h | h; exact .inl (live0.1 h); simp at h)
 
 end Tickit.Life
+
+namespace Tickit.Life
+open WinTree (Id Win Req Change Tree)
+
+/-! ## the state invariant under a change of the tree that frees nothing -/
+
+theorem SInv.of_tree {st : St} (inv : SInv st) {t' : Tree} (hinv : TInv t') (hsz : t'.wins.size = st.tree.wins.size)
+    (h : ∀ (i : Nat) (w : Win), st.tree.wins[i]? = some w →
+      ∃ w', t'.wins[i]? = some w' ∧ w'.freed = w.freed ∧ (w.freed = false → 1 ≤ w.refcount → 1 ≤ w'.refcount)) :
+    SInv { st with tree := t' } := by
+  have back : ∀ (i : Nat) (w' : Win), t'.wins[i]? = some w' →
+      ∃ w, st.tree.wins[i]? = some w ∧ w'.freed = w.freed ∧ (w.freed = false → 1 ≤ w.refcount → 1 ≤ w'.refcount) := by
+    intro i w' hw'
+    cases hw : st.tree.wins[i]? with
+    | none =>
+      have hlt : ¬ i < st.tree.wins.size := by
+        intro hlt
+        have := Array.getElem?_eq_getElem (xs := st.tree.wins) hlt
+        rw [hw] at this; cases this
+      have : t'.wins[i]? = none := Array.getElem?_eq_none (by rw [hsz]; exact Nat.le_of_not_lt hlt)
+      rw [hw'] at this; cases this
+    | some w =>
+      obtain ⟨w'', h1, h2, h3⟩ := h i w hw
+      rw [hw'] at h1; cases h1
+      exact ⟨w, rfl, h2, h3⟩
+  have live_iff : ∀ (i : Nat), (∃ w, LiveW t' i w) ↔ (∃ w, LiveW st.tree i w) := by
+    intro i
+    constructor
+    · rintro ⟨w', hl'⟩
+      obtain ⟨w, hw, hf, _⟩ := back i w' hl'.1
+      exact ⟨w, hw, by rw [← hf]; exact hl'.2⟩
+    · rintro ⟨w, hl⟩
+      obtain ⟨w', hw', hf, _⟩ := h i w hl.1
+      exact ⟨w', hw', by rw [hf]; exact hl.2⟩
+  refine ⟨hinv, by simp only; rw [hsz]; exact inv.wx_size, ?_, List.nodup_nil, by intro i hi; simp at hi, ?_,
+    ⟨inv.pens.rc, inv.pens.ex⟩, ?_, ?_, ?_, inv.rb_rc⟩
+  · intro i w' hl'
+    obtain ⟨w, hw, hf, hr⟩ := back i w' hl'.1
+    have hfl : w.freed = false := by rw [← hf]; exact hl'.2
+    exact hr hfl (inv.rc i w ⟨hw, hfl⟩)
+  · intro i w' hw' hf _
+    obtain ⟨w, hw, hf', _⟩ := back i w' hw'
+    exact inv.dead_pen i w hw (by rw [← hf']; exact hf) (by simp)
+  · intro hf h
+    exact inv.term_held hf (by rcases h with h | h; exact .inl ((live_iff 0).1 h); simp at h)
+  · intro hf h
+    exact inv.term_free hf (by rintro (h' | h'); exact h (.inl ((live_iff 0).2 h')); simp at h')
+  · intro hf h
+    exact inv.term_dead hf (by rcases h with h | h; exact .inl ((live_iff 0).1 h); simp at h)
+
+theorem SInv.of_rel' {st : St} (inv : SInv st) {t' : Tree} (hinv : TInv t') (hrel : TRel st.tree t')
+    (hrc : SameRC st.tree t') : SInv { st with tree := t' } := by
+  refine inv.of_tree hinv hrel.1 ?_
+  intro i w hw
+  obtain ⟨w', hw', hr⟩ := hrel.2 i w hw
+  exact ⟨w', hw', hr.2.2.1, fun _ h => by rw [hrc i w w' hw hw']; exact h⟩
+
+theorem SInv.of_closed {st : St} (inv : SInv st) {t' : Tree} {win : Nat} {ww : Win} (hw : LiveW st.tree win ww)
+    (C : Closed st.tree t' win ww) : SInv { st with tree := t' } := by
+  refine inv.of_tree C.inv C.size_eq ?_
+  intro i w hwi
+  by_cases hi : i = win
+  · subst hi
+    have : w = ww := by rw [hw.1] at hwi; exact (Option.some.inj hwi).symm
+    subst this
+    exact ⟨_, C.win_now.1, rfl, fun _ h => h⟩
+  · rcases C.others i w hi hwi with ⟨_, h⟩ | ⟨_, h⟩
+    · exact ⟨w, h, rfl, fun _ h => h⟩
+    · exact ⟨_, h, rfl, fun _ h => h⟩
+
+/-- `tickit_window_ref`. -/
+theorem refW_ok {st : St} (inv : SInv st) {win : Nat} {ww : Win} (hw : LiveW st.tree win ww) :
+    ∃ st', refW st win = .ok st' ∧ SInv st' := by
+  unfold refW
+  simp only [getW, get_live hw, bind_ok, pure_ok]
+  refine ⟨_, rfl, ?_⟩
+  obtain ⟨inv', _⟩ := inv.tinv.set_refcount hw (ww.refcount + 1)
+  have := inv.of_tree (t' := WinTree.set st.tree win { ww with refcount := ww.refcount + 1 }) inv' (set_size _ _ _) (by
+    intro i w hwi
+    by_cases hi : win = i
+    · subst hi
+      have : w = ww := by rw [hw.1] at hwi; exact (Option.some.inj hwi).symm
+      subst this
+      exact ⟨_, set_get_self _ hw.lt, rfl, fun _ h => by show 1 ≤ w.refcount + 1; omega⟩
+    · exact ⟨w, by rw [set_get_ne _ hi]; exact hwi, rfl, fun _ h => h⟩)
+  exact this
+
+end Tickit.Life
